@@ -224,6 +224,8 @@ def library_site(exc):
 def execute_guarded(mod, scenario, limit=None):
     """Run mod.execute under an alarm. Returns the outcome dict."""
     limit = limit or getattr(mod, "TIMEOUT", 10)
+    # the alarm is a wall-clock one: a loaded machine (other checks, audits) must not turn a slow run into a harness error
+    limit *= float(os.environ.get("TESIM_TIMEOUT_FACTOR", "4"))
     old = signal.signal(signal.SIGALRM, _alarm_handler)
     signal.setitimer(signal.ITIMER_REAL, limit)
     try:
